@@ -5,7 +5,10 @@ import json, re, subprocess, sys, os
 base = json.load(open('/root/.vp/BASELINE.json'))
 want = set(base['stable_pass'])
 env = dict(os.environ, CARGO_NET_OFFLINE='true')
-p = subprocess.run(['cargo', 'test', '--workspace', '--no-fail-fast', '--offline'], cwd='/repo', env=env,
+repo = sys.argv[1] if len(sys.argv) > 1 else '/repo'
+if len(sys.argv) > 2:
+    env['CARGO_TARGET_DIR'] = sys.argv[2]
+p = subprocess.run(['cargo', 'test', '--workspace', '--no-fail-fast', '--offline'], cwd=repo, env=env,
                    stdout=subprocess.PIPE, stderr=subprocess.STDOUT, text=True)
 cur = None
 passed, failed = set(), set()
